@@ -1214,4 +1214,83 @@ theorem replace_commute {m m₁ m₁₂ m₂ m₂₁ : MapObj} {A B : List Nat} 
     cases covered m.c m.st k <;> cases (A.any fun q => q >>> m.c.shift == k) <;>
       cases (B.any fun q => q >>> m.c.shift == k) <;> rfl
 
+/-! ### geometry primitives (`geom`) -/
+
+/-- `apply target op` of `opGeom`: the operand, then the explicit-path range update -/
+theorem geomApply_sameC {m₁ m₂ : MapObj} (hc : m₁.SameC m₂) (hw : m₁.WF) (operand : Except Err Val)
+    (op : String) (R : List (Nat × Nat)) :
+    ExR MapObj.SameC (operand >>= fun v => apiUpdateRanges m₁ op R (some v) false)
+      (operand >>= fun v => apiUpdateRanges m₂ op R (some v) false) := by
+  cases operand with
+  | error e => exact ExR.err _
+  | ok v => exact apiUpdateRanges_sameC hc hw op R (some v) false
+
+theorem geom_put_tail (h : w₁.SameW w₂) {m₁ m₂ : MapObj} (hc : m₁.SameC m₂) (hw : m₁.WF)
+    (hv : m₁.view = none) (operand : Except Err Val) (n op : String) (R : List (Nat × Nat))
+    (x₁ x₂ : MapObj) (hx : x₁.SameC x₂) (hxv : x₁.view = none) :
+    SimR (match operand >>= (fun v => apiUpdateRanges m₁ op R (some v) false) with
+        | .ok m' => (w₁.put n m', "ok")
+        | .error e => (w₁.put n x₁, errLine e))
+      (match operand >>= (fun v => apiUpdateRanges m₂ op R (some v) false) with
+        | .ok m' => (w₂.put n m', "ok")
+        | .error e => (w₂.put n x₂, errLine e)) := by
+  rcases (geomApply_sameC hc hw operand op R).cases with ⟨r₁, r₂, x1, x2, hr⟩ | ⟨e, x1, x2⟩
+  · rw [x1, x2]
+    obtain ⟨x, _, hu⟩ := except_bind_ok x1
+    exact ⟨rfl, h.put_owning _ hr ((apiUpdateRanges_view' hu).trans hv)⟩
+  · rw [x1, x2]; exact ⟨rfl, h.put_owning _ hx hxv⟩
+
+theorem geom_bind_tail (h : w₁.SameW w₂) {m₁ m₂ : MapObj} (hc : m₁.SameC m₂) (hw : m₁.WF)
+    (operand : Except Err Val) (r op : String) (R : List (Nat × Nat)) :
+    SimR (match operand >>= (fun v => apiUpdateRanges m₁ op R (some v) false) with
+        | .ok m' => (w₁.bind r { m' with cache := none }, "ok")
+        | .error e => (w₁, errLine e))
+      (match operand >>= (fun v => apiUpdateRanges m₂ op R (some v) false) with
+        | .ok m' => (w₂.bind r { m' with cache := none }, "ok")
+        | .error e => (w₂, errLine e)) := by
+  rcases (geomApply_sameC hc hw operand op R).cases with
+    ⟨r₁, r₂, x1, x2, hr⟩ | ⟨e, x1, x2⟩
+  · rw [x1, x2]; exact ⟨rfl, h.bind _ (hr.with_cache none)⟩
+  · rw [x1, x2]; exact SimR.same h _
+
+theorem same_opGeom (h : w₁.SameW w₂) (g₁ : w₁.Good) (g₂ : w₂.Good) (a : Args)
+    (hnv : NoViewTarget w₁ a) : SimR (opGeom w₁ a) (opGeom w₂ a) := by
+  unfold opGeom
+  refine sim_withMap h g₁ g₂ fun n m₁ m₂ hn e1 e2 hc ok1 ok2 => ?_
+  have hv : m₁.view = none := hnv m₁ (by rw [hn]; exact e1)
+  have hmb : m₂.maxbits = m₁.maxbits := by unfold MapObj.maxbits; rw [hc.kind_eq]
+  simp only [hn, hmb]
+  split
+  · exact SimR.same h _
+  · rename_i R _
+    split
+    · -- ior
+      rw [hc.kind_eq]
+      exact geom_put_tail h hc ok1.1 hv _ _ _ R _ _ (by samec hc) hv
+    · split
+      · -- or
+        rw [hc.kind_eq]
+        exact geom_bind_tail h (by samec hc) ((MapObj.WF_cache _ _).2 ok1.1) _ _ _ R
+      · split
+        · -- realize
+          rw [hc.kind_eq]
+          split
+          · exact SimR.same h _
+          · exact geom_put_tail h hc ok1.1 hv _ _ _ R _ _ (by samec hc) hv
+        · split
+          · -- getmap / getmaplike: an empty map of the requested type, then the pixels
+            rw [hc.kind_eq, hc.covord_eq, hc.spord_eq]
+            walk
+            all_goals first
+              | exact SimR.same h _
+              | (rename_i e he _ v hv'
+                 refine ⟨rfl, h.bind _ (.refl ((MapObj.WF_cache _ _).2 ?_))⟩
+                 have hE := WF.apiMakeEmpty he
+                 split at hv'
+                 · exact WF.apiSetBits hE hv'
+                 · split at hv'
+                   · exact WF.apiUpdate hE hv'
+                   · cases hv')
+          · exact SimR.same h _
+
 end HS
